@@ -263,7 +263,9 @@ type sys struct {
 	cfg     config
 	ops     []op
 	dir     string
-	present []bool // reference map (content is fixed per address)
+	items   []*item // the universe (sweep cases bring their own)
+	present []bool  // reference map (content is fixed per address)
+	extra   string  // extra structural class appended to fingerprints (boundary sweep)
 	pending [2]string
 }
 
@@ -278,7 +280,7 @@ func newSys(cfg config, ops []op) *sys {
 	dirSeq.n++
 	d := fmt.Sprintf("%s/s%d", dirSeq.base, dirSeq.n)
 	dirSeq.Unlock()
-	s := &sys{cfg: cfg, ops: ops, dir: d, present: make([]bool, len(univ))}
+	s := &sys{cfg: cfg, ops: ops, dir: d, items: univ, present: make([]bool, len(univ))}
 	t := s.open()
 	t.Close()
 	return s
@@ -311,7 +313,7 @@ func isNotFound(err error) bool {
 }
 
 func (s *sys) path(i int) string {
-	a := univ[i].addr
+	a := s.items[i].addr
 	str := a.Object().EncodeToString() + "." + a.Container().EncodeToString()
 	parts := []string{s.dir}
 	for d := uint64(0); d < s.cfg.depth; d++ {
@@ -348,7 +350,7 @@ func (s *sys) Apply(i int) (string, bool) {
 	o := s.ops[i]
 	switch o.kind {
 	case opPutPlain, opPutComb:
-		it := univ[o.items[0]]
+		it := s.items[o.items[0]]
 		var t *fstree.FSTree
 		if o.kind == opPutPlain {
 			t = s.open(fstree.WithCombinedCountLimit(1))
@@ -371,7 +373,7 @@ func (s *sys) Apply(i int) (string, bool) {
 		}
 		t := s.open(fstree.WithCombinedCountLimit(2), fstree.WithCombinedSizeThreshold(1<<20), fstree.WithCombinedSizeLimit(1<<30), fstree.WithCombinedWriteInterval(time.Hour))
 		errs := make(chan error, 2)
-		go func() { errs <- t.Put(univ[a].addr, univ[a].stored) }()
+		go func() { errs <- t.Put(s.items[a].addr, s.items[a].stored) }()
 		// the first Put links its file and then waits for the batch to fill; start the second one after that
 		pa := s.path(a)
 		for n := 0; ; n++ {
@@ -385,7 +387,7 @@ func (s *sys) Apply(i int) (string, bool) {
 				time.Sleep(10 * time.Microsecond)
 			}
 		}
-		go func() { errs <- t.Put(univ[b].addr, univ[b].stored) }()
+		go func() { errs <- t.Put(s.items[b].addr, s.items[b].stored) }()
 		for k := 0; k < 2; k++ {
 			if err := <-errs; err != nil {
 				s.fail("Put:unexpected-error", fmt.Sprintf("%v: %v", o, err))
@@ -407,7 +409,7 @@ func (s *sys) Apply(i int) (string, bool) {
 			}
 			m := make(map[oid.Address][]byte, len(o.items))
 			for _, k := range o.items {
-				m[univ[k].addr] = univ[k].stored
+				m[s.items[k].addr] = s.items[k].stored
 			}
 			t := s.open()
 			err := t.PutBatch(m)
@@ -431,7 +433,7 @@ func (s *sys) Apply(i int) (string, bool) {
 			}
 			match := true
 			for j, k := range o.items {
-				if ids[j] != univ[k].addr.Object() {
+				if ids[j] != s.items[k].addr.Object() {
 					match = false
 				}
 			}
@@ -452,7 +454,7 @@ func (s *sys) Apply(i int) (string, bool) {
 	case opDelete:
 		k := o.items[0]
 		t := s.open()
-		err := t.Delete(univ[k].addr)
+		err := t.Delete(s.items[k].addr)
 		t.Close()
 		switch {
 		case s.present[k] && err != nil:
@@ -515,7 +517,7 @@ func (s *sys) shape(k int) string {
 		return "absent"
 	}
 	z := ""
-	if !bytes.Equal(univ[k].stored, univ[k].content) {
+	if !bytes.Equal(s.items[k].stored, s.items[k].content) {
 		z = "zstd,"
 	}
 	ids, ok := members(data)
@@ -526,7 +528,7 @@ func (s *sys) shape(k int) string {
 		return z + "malformed-combined"
 	}
 	for j, id := range ids {
-		if id == univ[k].addr.Object() {
+		if id == s.items[k].addr.Object() {
 			return fmt.Sprintf("%scombined:member %d of %d", z, j+1, len(ids))
 		}
 	}
@@ -548,7 +550,7 @@ func (s *sys) Check() (string, string) {
 	bad := func(api, rule string, k int, detail string) {
 		if fp == "" {
 			sh := s.shape(k)
-			it := univ[k]
+			it := s.items[k]
 			sz := func(n int) string {
 				switch {
 				case n < iobject.NonPayloadFieldsBufferLength:
@@ -588,8 +590,8 @@ func (s *sys) Check() (string, string) {
 					fpShape += ",followed-by-members"
 				}
 			}
-			fp = fmt.Sprintf("%s:%s:%s", api, rule, fpShape)
-			what = fmt.Sprintf("[%s] address %s (%d bytes, %s) %s: %s; stored set %v", s.cfg, univ[k].name, len(univ[k].content), sh, api, detail, s.names())
+			fp = fmt.Sprintf("%s:%s:%s%s", api, rule, fpShape, s.extra)
+			what = fmt.Sprintf("[%s] address %s (%d bytes, %s) %s: %s; stored set %v", s.cfg, s.items[k].name, len(s.items[k].content), sh, api, detail, s.names())
 		}
 	}
 	guard := func(api string, k int, f func()) {
@@ -602,7 +604,7 @@ func (s *sys) Check() (string, string) {
 	}
 	buf := make([]byte, 2*iobject.NonPayloadFieldsBufferLength)
 	for _, k := range s.cfg.sel {
-		it := univ[k]
+		it := s.items[k]
 		want := s.present[k]
 		sh := s.shape(k)
 		obsMu.Lock()
@@ -660,12 +662,14 @@ func (s *sys) Check() (string, string) {
 			}
 		})
 		guard("ReadHeader", k, func() {
+			poison(buf)
 			n, err := t.ReadHeader(it.addr, buf)
 			if expectErr("ReadHeader", err) && (n > len(it.content) || !bytes.Equal(buf[:n], it.content[:n]) || n < len(it.content)-len(it.payload)) {
 				bad("ReadHeader", "not-a-prefix-with-full-header", k, fmt.Sprintf("n=%d", n))
 			}
 		})
 		guard("ReadObject", k, func() {
+			poison(buf)
 			n, rc, err := t.ReadObject(it.addr, buf)
 			if expectErr("ReadObject", err) {
 				rest, rerr := io.ReadAll(rc)
@@ -685,7 +689,7 @@ func (s *sys) Check() (string, string) {
 		seen := map[oid.Address]int{}
 		err := t.Iterate(func(a oid.Address, data []byte) error {
 			seen[a]++
-			for k, it := range univ {
+			for k, it := range s.items {
 				if it.addr == a && !bytes.Equal(data, it.content) {
 					bad("Iterate", "wrong-bytes", k, fmt.Sprintf("%d bytes, stored %d", len(data), len(it.content)))
 				}
@@ -714,10 +718,17 @@ func (s *sys) Check() (string, string) {
 	return fp, what
 }
 
+// poison fills a caller-provided buffer so that stale bytes are never zero by accident.
+func poison(b []byte) {
+	for i := range b {
+		b[i] = 0xa5
+	}
+}
+
 func (s *sys) iterCheck(api string, seen map[oid.Address]int, bad func(api, rule string, k int, detail string)) {
-	for k := 0; k < len(univ); k++ {
-		n := seen[univ[k].addr]
-		delete(seen, univ[k].addr)
+	for k := 0; k < len(s.items); k++ {
+		n := seen[s.items[k].addr]
+		delete(seen, s.items[k].addr)
 		switch {
 		case s.present[k] && n == 0:
 			bad(api, "stored-address-not-listed", k, "")
@@ -736,7 +747,7 @@ func (s *sys) names() []string {
 	var r []string
 	for k, p := range s.present {
 		if p {
-			r = append(r, univ[k].name)
+			r = append(r, s.items[k].name)
 		}
 	}
 	return r
@@ -745,7 +756,8 @@ func (s *sys) names() []string {
 // ---------- driver ----------
 
 type replay struct {
-	Ops []string `json:"ops"`
+	Ops   []string   `json:"ops,omitempty"`
+	Sweep *sweepCase `json:"sweep,omitempty"`
 }
 
 func configs(thorough bool) []struct {
@@ -816,6 +828,14 @@ func main() {
 	if r.Replay != "" {
 		var rp replay
 		r.LoadReplay(&rp)
+		if rp.Sweep != nil {
+			fp, what := runSweepCase(*rp.Sweep)
+			os.RemoveAll(base)
+			if fp != "" {
+				r.Violation(fp, what, rp)
+			}
+			r.Finish()
+		}
 		for _, th := range []bool{false, true} {
 			for _, cd := range configs(th) {
 				if len(rp.Ops) > 0 && !strings.HasPrefix(rp.Ops[0], "["+cd.c.String()+"] ") {
@@ -844,6 +864,7 @@ func main() {
 		Transitions  int    `json:"transitions"`
 	}
 	var rows []row
+	sweepPart(r.Quick())
 	for _, cd := range configs(r.Thorough()) {
 		cfg := mk(cd.c)
 		cfg.MaxDepth = cd.depth
